@@ -605,6 +605,11 @@ func (s *scope) interpretExpression(expr *Expression) pyObject {
 	// Check the optimised sites first
 	if expr.optimised != nil {
 		if expr.optimised.Constant != nil {
+			if l, ok := expr.optimised.Constant.(pyList); ok {
+				// Lists can be modified by index assignment, so every evaluation of a list literal must
+				// yield a list of its own, as it would if the literal had not been precalculated.
+				return cloneList(l)
+			}
 			return expr.optimised.Constant
 		} else if expr.optimised.Local != "" {
 			return s.Lookup(expr.optimised.Local)
@@ -1087,6 +1092,19 @@ func (s *scope) callObject(name string, obj pyObject, c *Call) pyObject {
 		s.Error("Non-callable object '%s' (is a %s)", name, obj.Type())
 	}
 	return f.Call(s, c)
+}
+
+// cloneList returns a copy of a precalculated list literal, including any lists nested in it.
+func cloneList(l pyList) pyList {
+	ret := make(pyList, len(l))
+	for i, v := range l {
+		if inner, ok := v.(pyList); ok {
+			ret[i] = cloneList(inner)
+		} else {
+			ret[i] = v
+		}
+	}
+	return ret
 }
 
 // Constant returns an object from an expression that describes a constant,
